@@ -62,7 +62,9 @@ Print Assumptions C03_hit_after_store_within_capacity.
 
 (* Only the hashed components enter the fingerprint.  Two requests with the same compiler, the same hashed
    arguments in the same order, the same input digests and
-     C/C++: the same allow-listed variables UP TO ORDER,
+     C/C++: the same allow-listed variables UP TO ORDER, and — only for objects instrumented for coverage /
+            profiling ([profile_out]: the compiler embeds the .gcda/.gcno location derived from it) — the same
+            absolute object path,
      rustc: the same --cfg values, --extern files, CARGO_ variables and env-deps UP TO ORDER, and the same cwd
    have the same fingerprint — whatever their output names, -L paths, unhashed arguments, other variables. *)
 Theorem C03_key_ignores_unhashed :
@@ -71,6 +73,7 @@ Theorem C03_key_ignores_unhashed :
   hashed_args (rq_args r') = hashed_args (rq_args r) ->
   match rq_lang r with
   | LangC =>
+      profile_out r' = profile_out r /\
       Permutation (filter (fun e => c_env_hashed (fst e)) (rq_env r'))
                   (filter (fun e => c_env_hashed (fst e)) (rq_env r))
   | LangRust =>
@@ -85,9 +88,11 @@ Theorem C03_key_ignores_unhashed :
 Proof. exact key_ignores_unhashed. Qed.
 Print Assumptions C03_key_ignores_unhashed.
 
-(* ... in particular: another output name (every -o / --out-dir argument and every output path replaced) *)
+(* ... in particular: another output name (every -o / --out-dir argument and every output path replaced), for
+   every rustc request and every C/C++ request that is not instrumented for coverage / profiling *)
 Theorem C03_key_ignores_output :
   forall (r : request) (p : bytes) (outs : list output) (tag : N),
+  rq_lang r = LangRust \/ has_profile (rq_args r) = false ->
   fingerprint_of (retarget r p outs tag) = fingerprint_of r.
 Proof. exact key_ignores_output. Qed.
 Print Assumptions C03_key_ignores_output.
